@@ -69,7 +69,8 @@ func CanRaw(s string) bool {
 		return false
 	}
 	for _, r := range s {
-		if r == '`' || r == '\r' || r == 0 || r == 0xFEFF || r == utf8.RuneError {
+		// A raw string keeps its content verbatim, carriage returns included.
+		if r == '`' || r == 0 || r == 0xFEFF || r == utf8.RuneError {
 			return false
 		}
 	}
